@@ -27,9 +27,10 @@ TECHNIQUE = ("bounded symbolic execution of the real RegionGraph.generalized_bel
 BOUNDS = {
     "quick": "3-4 attributes of size 2 (one of size 3); normalisation: 6 clique sets incl. loops, sweeps 1-2, real and arbitrary messages; LBP exactness: "
              "4 tree factor graphs, sweeps diameter..diameter+2; GBP fixed point: 2-level region graphs (chain, star, nested)",
-    "thorough": "quick + sizes (2,3,2), 3-level region graphs (ABC,BCD,CDE), potentials on separator regions",
+    "thorough": "quick + a star of three 3-cliques writing the shared separator in different orders, and potentials on separator regions (known finding)",
 }
-OUTSIDE = ("'exact once run for enough sweeps' for GBP as a statement about finitely many damped sweeps (geometric convergence only); FactorGraph(convex=True) "
+OUTSIDE = ("GBP fixed-point exactness on region graphs with >= 4 maximal cliques or 3 levels (nlsat did not answer within 30-40 min); "
+           "'exact once run for enough sweeps' for GBP as a statement about finitely many damped sweeps (geometric convergence only); FactorGraph(convex=True) "
            "(cvxopt is not installed); float overflow in unnormalised beliefs; warm messages with -inf entries")
 ASSUMPTIONS = ["real-number semantics; log-space values as positive reals", "messages are arbitrary positive reals in the 'arbitrary state' runs",
                "clique sets, sweep counts are enumerated; potentials, total, messages are symbolic"]
@@ -84,15 +85,17 @@ def configs(tier, seed):
             continue
         if name == "star_orders" and tier == "quick":
             continue
+        if name == "chain4":
+            continue              # 4 maximal cliques: nlsat does not answer within 40 min (measured); outside the bound
         cfgs.append(dict(name="gbp_fixpoint:%s" % name, kind="gbp", cliques=cl, sizes=sizes4 if name != "star_orders" else {k: 2 for k in "abcde"},
                          seppot=False, cost=10, timeout=2400 if name in ("chain4", "star_orders") else 900, core=name not in ("chain4", "star_orders")))
     if tier == "thorough":
         for name, cl in RIP_SETS.items():
-            cfgs.append(dict(name="gbp_fixpoint:%s:separator_potentials" % name, kind="gbp", cliques=cl, sizes=sizes4, seppot=True, cost=10,
-                             timeout=900, core=False))
-        for name, cl in RIP_DEEP.items():
-            cfgs.append(dict(name="gbp_fixpoint:%s" % name, kind="gbp", cliques=cl, sizes={k: 2 for k in "abcde"}, seppot=False, cost=60,
-                             timeout=1800, core=False))
+            if name == "chain4":
+                continue          # > 15 min without an answer (measured); not run
+            cfgs.append(dict(name="gbp_fixpoint:%s:separator_potentials" % name, kind="gbp", cliques=cl,
+                             sizes=sizes4 if name != "star_orders" else {k: 2 for k in "abcde"}, seppot=True, cost=10, timeout=900, core=False))
+        # RIP_DEEP (3-level region graph ABC,BCD,CDE) did not finish in 30 min (measured) and is not run; stated as outside the bound
     return cfgs
 
 
@@ -218,7 +221,8 @@ def finding_key(c):
     cfg = c["config"]
     if c.get("kind") in ("exception", "poison"):
         what = c.get("kind") + ":" + str(c.get("where", c.get("why", "")))[:70]
-    return "%s:%s:%s" % (cfg["kind"], cfg["name"].split(":")[1], what)
+    kind = cfg["kind"] + ("_separator_potentials" if cfg.get("seppot") else "")
+    return "%s:%s:%s" % (kind, cfg["name"].split(":")[1], what)
 
 
 def replay(c):
